@@ -138,6 +138,11 @@ func (p *Nebula) AuthorizeSign(_ context.Context, token string) ([]SignOption, e
 		for i, ipnet := range crt.Details.Ips {
 			sans[i+1] = ipnet.IP.String()
 		}
+	} else if err := validateNebulaTokenSANs(crt, sans); err != nil {
+		// The token is signed with the key of the Nebula certificate, not
+		// by the Nebula CA, the names that it asks for are limited to the
+		// ones in the certificate, as they are in the CSR and in SSH.
+		return nil, err
 	}
 
 	data := x509util.CreateTemplateData(claims.Subject, sans)
@@ -452,6 +457,26 @@ func (v nebulaSANsValidator) Valid(req *x509.CertificateRequest) error {
 		}
 	}
 
+	return nil
+}
+
+// validateNebulaTokenSANs checks that the names in a token are the name or one
+// of the IPs of the Nebula certificate that signed it.
+func validateNebulaTokenSANs(crt *nebula.NebulaCertificate, sans []string) error {
+	for _, san := range sans {
+		valid := san == crt.Details.Name
+		if ip := net.ParseIP(san); !valid && ip != nil {
+			for _, ipnet := range crt.Details.Ips {
+				if ip.Equal(ipnet.IP) {
+					valid = true
+					break
+				}
+			}
+		}
+		if !valid {
+			return errs.Forbidden("token contains invalid name or IP addresses - got %v", sans)
+		}
+	}
 	return nil
 }
 
